@@ -312,6 +312,7 @@ def run_schedule(sched: dict, fallback_base: str, repo: str, result_cb) -> None:
     try:
         sim.enter_sandbox(fallback_base)
         world = sim.World()
+        sim._the_world = world
         world.load_tree(sched.get("tree", {}))
         plan = sim.FaultPlan(sched.get("faults", []))
         seams = sim.Seams(world, plan, sched.get("order"))
